@@ -295,3 +295,33 @@ Proof.
   - unfold row_attr. rewrite Hid. cbn [c_fields]. apply lookup_assign_same'.
   - unfold same_key. cbn. auto.
 Qed.
+
+(* ------------------------------------------------------------------ the row loop *)
+
+(* [loop_rows e t i cnt s s' last last']: rows with child_index i, i+1, ..., cnt-1 are generated
+   one after the other, each by the row task of template t, threading the state *)
+Inductive loop_rows (e : env) (t : template) : Z -> Z -> st -> st -> option nat -> option nat -> Prop :=
+| loop_done i cnt s last : cnt <= i -> loop_rows e t i cnt s s last last
+| loop_step i cnt s s1 s' h last last' fuel :
+    i < cnt ->
+    run fuel e (TRow t i) (set_var s "child_index" (VInt i)) = Ok (s1, RRow h) ->
+    loop_rows e t (i + 1) cnt s1 s' h last' ->
+    loop_rows e t i cnt s s' last last'.
+
+Theorem loop_generates_count_rows fuel : forall e t i cnt last s s' r,
+  run fuel e (TLoop t i cnt last) s = Ok (s', r) ->
+  exists last', r = RRow last' /\ loop_rows e t i cnt s s' last last'.
+Proof.
+  induction fuel as [|n IH]; intros e t i cnt last s s' r H; [discriminate|].
+  cbn [run] in H. destruct (i <? cnt) eqn:E.
+  - dbind H as [s1 r1]. destruct r1 as [|v|h]; try discriminate.
+    destruct (IH _ _ _ _ _ _ _ _ H) as (last' & -> & HL).
+    exists last'. split; [reflexivity|]. eapply loop_step; [lia|exact E0|exact HL].
+  - injection H as <- <-. exists last. split; [reflexivity|]. apply loop_done. lia.
+Qed.
+
+(* the number of rows a loop generates *)
+Lemma loop_rows_count e t i cnt s s' last last' :
+  loop_rows e t i cnt s s' last last' -> i <= cnt ->
+  exists n : nat, Z.of_nat n = cnt - i.
+Proof. intros _ H. exists (Z.to_nat (cnt - i)). lia. Qed.
